@@ -20,6 +20,15 @@ What is NOT proved here (and why):
 -/
 import NoKVModel.Conc.WatermarkContract
 
+/-
+Which theorem needs which fact value:
+  C32_monotone, C32_wait              every value of countsFirst / tracksZero / holdsAtDone
+  C32_never_passes_serialized         countsFirst = true; any tracksZero, any holdsAtDone (the extra
+                                      load of slot(doneUntil) only adds a way to return; under the
+                                      contract every index <= doneUntil is finished, so it never fires)
+  C32_fails_asis_order                countsFirst = false; any tracksZero, any holdsAtDone
+  C32_fails_general                   countsFirst = true; any tracksZero, any holdsAtDone
+-/
 namespace NoKV.Props.C32
 open NoKV.Conc NoKV.Conc.WM
 
@@ -57,41 +66,44 @@ theorem C32_wait (c : WMCfg) (_hc : True) (contract : Bool) (s : St)
     (hret : t.returned = true) : t.kind.idx ≤ s.doneUntil :=
   ((W.reachable c contract s hr) tid t ht).returnedLe hret
 
-/-! ### as-is: lastIndex is published before the pending count (finding `watermark-publish-before-count`) -/
+/-! ### publish-then-count order (finding `watermark-publish-before-count`, fixed by 0630bbc) -/
 
 /-- Contract respected.  Begin(1) completes; Begin(2) publishes lastIndex = 2 and is preempted
 before its `+1`; Done(1) decrements and its tryAdvance moves the mark over 1 and then over 2,
-whose slot still reads 0. -/
+whose slot still reads 0.  (Actions of finished threads are not enabled and are skipped by `run`,
+so the same schedule serves every value of the other two facts.) -/
 def witness : List Act :=
-  [ .begin 0 1, .run 0, .run 0, .run 0,          -- setLast 1, add 1, endBegin
-    .run 0, .run 0, .run 0,                      -- tryAdvance: d=0, L=1, slot(1)=1 > 0: return
-    .begin 1 2, .run 1,                          -- Begin(2): setLast 2 … preempted
-    .done 2 1, .run 2,                           -- Done(1): slot(1) := 0
-    .run 2, .run 2, .run 2, .run 2, .run 2,      -- d=0, L=2, slot(1)=0, CAS 0→1, notify
-    .run 2, .run 2, .run 2, .run 2 ]             -- d=1, L=2, slot(2)=0 (!), CAS 1→2
+  [Act.begin 0 1] ++ List.replicate 12 (Act.run 0) ++   -- Begin(1) runs to completion
+  [Act.begin 1 2, Act.run 1] ++                          -- Begin(2): setLast 2 … preempted
+  [Act.done 2 1] ++ List.replicate 24 (Act.run 2)        -- Done(1): slot(1) := 0; CAS 0→1; CAS 1→2
 
-theorem C32_fails_asis_order (c : WMCfg) (hc : c = ⟨false⟩) :
+theorem C32_fails_asis_order (c : WMCfg) (hc : c.countsFirst = false) :
     ∃ s, Reachable (sys c true) s ∧ s.doneUntil = 2 ∧ Unfinished s 2 := by
+  obtain ⟨a, b, d⟩ := c
+  simp only at hc
   subst hc
-  refine ⟨run (sys ⟨false⟩ true) initSt witness, run_reachable _ _ (.init rfl) _, by decide, ?_⟩
-  unfold Unfinished
-  decide
+  refine ⟨run (sys ⟨false, b, d⟩ true) initSt witness, run_reachable _ _ (.init rfl) _, ?_, ?_⟩
+  · cases b <;> cases d <;> decide
+  · unfold Unfinished
+    cases b <;> cases d <;> decide
 
 /-- Without the contract the repaired order does not help (model-level theorem, see the header):
 Begin(3)'s tryAdvance has loaded slot(1) = 0; Begin(1) — an index below lastIndex — increments;
 the CAS moves the mark over the begun, unfinished index 1. -/
 theorem C32_fails_general (c : WMCfg) (hc : c.Good) :
     ∃ s, Reachable (sys c false) s ∧ s.doneUntil = 1 ∧ Unfinished s 1 := by
-  have hc' : c = ⟨true⟩ := by cases c; simp [WMCfg.Good] at hc; simp [hc]
-  subst hc'
-  refine ⟨run (sys ⟨true⟩ false) initSt
-    [ .begin 0 3, .run 0, .run 0, .run 0, .run 0, .run 0,   -- add 3; advance (d=0 >= L=0); setLast 3; endBegin
-      .run 0, .run 0, .run 0,                               -- advance: d=0, L=3, slot(1)=0 → about to CAS
-      .begin 1 1, .run 1,                                   -- Begin(1): slot(1) := 1
-      .run 0 ],                                             -- CAS 0→1
-    run_reachable _ _ (.init rfl) _, by decide, ?_⟩
-  unfold Unfinished
-  decide
+  obtain ⟨a, b, d⟩ := c
+  simp only [WMCfg.Good] at hc
+  subst hc
+  -- add 3; advance (d=0 >= L=0: 2 steps); setLast 3; endBegin; advance: start, d=0, [slot(0)], slot(1)=0 → about to CAS
+  refine ⟨run (sys ⟨true, b, d⟩ false) initSt
+    ([Act.begin 0 3] ++ List.replicate (if d then 9 else 8) (Act.run 0) ++
+      [Act.begin 1 1, Act.run 1,                            -- Begin(1): slot(1) := 1
+       Act.run 0]),                                         -- CAS 0→1
+    run_reachable _ _ (.init rfl) _, ?_, ?_⟩
+  · cases b <;> cases d <;> decide
+  · unfold Unfinished
+    cases b <;> cases d <;> decide
 
 /-! ### non-vacuity -/
 
@@ -99,11 +111,20 @@ example : WMCfg.good.Good := by decide
 
 /-- under the good order the as-is schedule leaves the mark at 1: Begin(2) has counted before it
 published, so Done(1)'s tryAdvance never sees index 2 with an empty slot -/
+example : (run (sys WMCfg.good true) initSt witness).doneUntil = 1 := by
+  decide
+
+/-- `holdsAtDone`: an index equal to the mark that is begun again holds the mark (outside the
+contract: this is how `oracle.readMark` is used) -/
 example :
-    (run (sys WMCfg.good true) initSt
-      [ .begin 0 1, .run 0, .run 0, .run 0, .run 0, .run 0, .run 0, .run 0, .run 0,
-        .begin 1 2, .run 1, .run 1, .run 1, .run 1,     -- add 2; advance (returns); setLast 2
-        .done 2 1, .run 2, .run 2, .run 2, .run 2, .run 2, .run 2, .run 2, .run 2, .run 2 ]).doneUntil = 1 := by
+    (run (sys WMCfg.good false) initSt
+      ([Act.begin 0 1] ++ List.replicate 12 (Act.run 0) ++ [Act.done 1 1] ++ List.replicate 12 (Act.run 1) ++
+       [Act.begin 2 1] ++ List.replicate 12 (Act.run 2) ++      -- doneUntil = 1; Begin(1) again
+       [Act.begin 3 2] ++ List.replicate 12 (Act.run 3) ++ [Act.done 4 2] ++ List.replicate 12 (Act.run 4))).doneUntil = 1 ∧
+    (run (sys { WMCfg.good with holdsAtDone := false } false) initSt
+      ([Act.begin 0 1] ++ List.replicate 12 (Act.run 0) ++ [Act.done 1 1] ++ List.replicate 12 (Act.run 1) ++
+       [Act.begin 2 1] ++ List.replicate 12 (Act.run 2) ++
+       [Act.begin 3 2] ++ List.replicate 12 (Act.run 3) ++ [Act.done 4 2] ++ List.replicate 12 (Act.run 4))).doneUntil = 2 := by
   decide
 
 end NoKV.Props.C32
